@@ -865,8 +865,9 @@ func c06Blur(ctx *Ctx, t cty.Type) cty.Type {
 		return cty.Tuple(n)
 	case t.IsObjectType():
 		n := map[string]cty.Type{}
-		for k, a := range t.AttributeTypes() {
-			n[k] = c06Blur(ctx, a)
+		src := t.AttributeTypes()
+		for _, k := range sortedKeys(src) { // sorted: reproducible order of the random draws
+			n[k] = c06Blur(ctx, src[k])
 		}
 		return cty.Object(n)
 	}
